@@ -308,6 +308,10 @@ func evalToken(line string) (out string, rd string) {
 		return tokRoundTrip(f[1], f[2], f[3]), line
 	case "go.tok.concurrent":
 		return tokConcurrent(f[1], f[2]), line
+	case "go.cmd.history":
+		return cmdHistory(), line
+	case "go.lit.nodes":
+		return literalNodes(), line
 	case "go.lit.exact":
 		var i int
 		fmt.Sscan(f[1], &i)
@@ -473,6 +477,13 @@ func runTokenStream(c *ctx) error {
 				{"sig-truncated", mk(kind.tag, kind.fs), k.priv, func(s []byte) string { return "b" + hxsRaw(string(s[:len(s)-1])) }, ""},
 				{"sig-not-bytes", mk(kind.tag, kind.fs), k.priv, func(s []byte) string { return "s" + hxsRaw(string(s)) }, ""},
 				{"outer-extra", mk(kind.tag, kind.fs), k.priv, nil, ",n"},
+				{"sig-padded-1025", mk(kind.tag, kind.fs), k.priv, func(s []byte) string { return "b" + hxsRaw(string(s)) + strings.Repeat("00", 1025-len(s)) }, ""},
+				{"sig-junk-257", mk(kind.tag, kind.fs), k.priv, func(s []byte) string { return "b" + strings.Repeat("5a", 257) }, ""},
+				{"sig-junk-1024", mk(kind.tag, kind.fs), k.priv, func(s []byte) string { return "b" + strings.Repeat("5a", 1024) }, ""},
+				{"sig-junk-1025", mk(kind.tag, kind.fs), k.priv, func(s []byte) string { return "b" + strings.Repeat("5a", 1025) }, ""},
+				{"sig-junk-4097", mk(kind.tag, kind.fs), k.priv, func(s []byte) string { return "b" + strings.Repeat("a5", 4097) }, ""},
+				{"sig-junk-65537", mk(kind.tag, kind.fs), k.priv, func(s []byte) string { return "b" + strings.Repeat("c3", 65537) }, ""},
+				{"sig-twice", mk(kind.tag, kind.fs), k.priv, func(s []byte) string { return "b" + hxsRaw(string(s)) + hxsRaw(string(s)) }, ""},
 				{"payload-not-map", "m(68:" + hdr + "," + kind.tag + ":l())", k.priv, nil, ""},
 			}
 			for _, ec := range envCases {
@@ -530,11 +541,20 @@ func runTokenStream(c *ctx) error {
 	for i := range numCases() {
 		c.emit(fmt.Sprintf("go.lit.exact %d", i), "literal.exact", true, "literal")
 	}
+	c.emit("go.cmd.history 0", "literal.exact", true, "cmd-history")
+	c.emit("go.lit.nodes 0", "literal.exact", true, "literal-nodes")
 	// (roundtrip) constructor-built tokens
 	rtAlgs := []string{"ed25519", "secp256k1", "p256", "p384", "p521", "rsa"}
 	masks := 128
 	for _, alg := range rtAlgs {
 		for _, kind := range []string{"dlg", "inv"} {
+			// bits 7–9 (early instants, audience = subject, integral floats): a few masks per algorithm
+			for _, m := range []int{128, 129, 256, 257, 384, 128 + 16, 256 + 8, 512, 513, 512 + 2 + 4} {
+				if !c.thoro && alg != "ed25519" && alg != "p256" {
+					continue
+				}
+				c.emit(fmt.Sprintf("go.tok.roundtrip %s %s %d", kind, alg, m), "token.roundtrip:"+alg, true, "roundtrip:"+kind+":"+alg)
+			}
 			for m := 0; m < masks; m++ {
 				if !c.thoro && alg == "rsa" {
 					if m != 7 {
@@ -653,17 +673,22 @@ func specialValues(field string) []string {
 			"l(l(" + str("==") + "," + str(".a") + ",i9007199254740992))",
 			"l(l(" + str("==") + "," + str(".a") + ",i1),l(" + str("==") + "," + str(".b") + ",i9007199254740992))",
 			"l(l(" + str("==") + "," + str(".a") + ",l(l(i1),l(i-9007199254740992))))",
+			"l(l(" + str("==") + "," + str(".a") + ",i-9223372036854775808))", "l(l(" + str(">") + "," + str(".a") + ",i9223372036854775807))",
+			"l(l(" + str("==") + "," + str(".a") + ",l(i0,m(" + hxsRaw("k") + ":i-9223372036854775808))))",
 			"l(l(" + str("and") + ",l(l(" + str("==") + "," + str(".a") + ",m(" + hxsRaw("x") + ":l()," + hxsRaw("y") + ":i9007199254740992)))))", "l(l(" + str("nope") + "," + str(".a") + ",i1))", "l(l(" + str("==") + "," + str(".a[") + ",i1))"}
 	case "nonce":
 		return []string{"b", "b" + hxsRaw("12345678901"), "b" + hxsRaw("123456789012"), "b00"}
 	case "nbf", "exp", "iat":
-		return []string{"i0", "i-1", "i9007199254740991", "i9007199254740992", "i-9007199254740991", "i-9007199254740992", "n"}
+		return []string{"i0", "i-1", "i9007199254740991", "i9007199254740992", "i-9007199254740991", "i-9007199254740992", "n",
+			"i-9223372036854775808", "i9223372036854775807", "i-62135596800", "i-62135596801", "i253402300800"}
 	case "args":
 		return []string{"m()", "m(" + hxsRaw("a") + ":i9007199254740992)", "m(" + hxsRaw("a") + ":l(m(" + hxsRaw("b") + ":i-9007199254740992)))", "m(" + hxsRaw("a") + ":i9007199254740991)",
 			"m(" + hxsRaw("a") + ":l(l(i1),l(i9007199254740992)))", "m(" + hxsRaw("a") + ":m(" + hxsRaw("x") + ":m()," + hxsRaw("y") + ":i9007199254740992))",
-			"m(" + hxsRaw("a") + ":l()," + hxsRaw("b") + ":i-9007199254740992)"}
+			"m(" + hxsRaw("a") + ":l()," + hxsRaw("b") + ":i-9007199254740992)",
+			"m(" + hxsRaw("a") + ":i-9223372036854775808)", "m(" + hxsRaw("a") + ":i9223372036854775807)",
+			"m(" + hxsRaw("a") + ":l(i1,m(" + hxsRaw("b") + ":l(i-9223372036854775808))))"}
 	case "meta":
-		return []string{"m()", "m(" + hxsRaw("a") + ":i9007199254740992)"}
+		return []string{"m()", "m(" + hxsRaw("a") + ":i9007199254740992)", "m(" + hxsRaw("a") + ":i-9223372036854775808)"}
 	case "prf":
 		return []string{"l()", "l(i1)", "l(" + str("x") + ")"}
 	}
@@ -703,6 +728,12 @@ func tokRoundTrip(kind, alg, ms string) string {
 		if opt(5) {
 			// extreme but finite bounds: the largest whole second the wire format admits
 			opts = append(opts, delegation.WithExpiration(time.Unix(9007199254740991, 0)))
+		}
+		if opt(9) {
+			pol = append(pol, policy.MustConstruct(policy.Equal(".f", literalFloat(2.0)), policy.GreaterThan(".g", literalFloat(-1e15)))...)
+		}
+		if opt(7) {
+			opts = append(opts, delegation.WithNotBefore(time.Unix(9007199254740991, 0)))
 		}
 		var t *delegation.Token
 		if opt(6) {
@@ -767,6 +798,22 @@ func tokRoundTrip(kind, alg, ms string) string {
 			} else {
 				icmd = command.New("Upper", "case")
 			}
+		}
+		if opt(7) {
+			// instants a long way before 1970, down to Go's zero time (1 January of year 1)
+			if mask%2 == 0 {
+				opts = append(opts, invocation.WithInvokedAt(time.Time{}), invocation.WithExpiration(time.Date(1000, 1, 1, 0, 0, 0, 0, time.UTC)))
+			} else {
+				opts = append(opts, invocation.WithExpiration(time.Time{}), invocation.WithInvokedAt(time.Unix(-1, 0)))
+			}
+		}
+		if opt(8) {
+			// an audience naming the subject itself (after any other audience option, so that it is the one that counts)
+			opts = append(opts, invocation.WithAudience(aud.did))
+		}
+		if opt(9) {
+			// floats without a fractional part
+			opts = append(opts, invocation.WithArgument("f0", 0.0), invocation.WithArgument("f3", 3.0), invocation.WithArgument("fl", []any{-2.0, 1e15}))
 		}
 		t, err := invocation.New(k.did, aud.did, icmd, prf, opts...)
 		if err != nil {
